@@ -10,7 +10,7 @@ E2  every edge of the parser graph is replayed on the real function (result, par
     status, Error-Type, trailer announcement); every copy case enumerated by TLC (size x limit x chunking x
     read failure) runs through SendDirectInvokeResponse in buffered and streaming mode with a stamping
     writer: trailer class, forwarded length, byte-for-byte prefix, and for streaming the volume-by-time bound
-    burst + rate x t (+ one refill quantum); a reset arriving during a throttled copy must end it Truncated.
+    burst + floor(t / 125 ms) x quantum (TokenBucket.tla, 40 ms slack), also with quantum > burst; a reset arriving during a throttled copy must end it Truncated.
 """
 import json
 import os
@@ -92,6 +92,11 @@ def run(ctx):
                   "class": "Complete", "forwarded": 96 * kb, "rate": 32 * kb, "burst": 32 * kb})
     cases.append({"mode": "Streaming", "limit": -1, "size": 400 * kb, "chunk": 16 * kb, "failAt": -1, "reset": True,
                   "class": "Truncated", "forwarded": 0, "rate": 32 * kb, "burst": 32 * kb})
+    # a refill quantum larger than the burst size: the burst still bounds what goes out at once
+    cases.append({"mode": "Streaming", "limit": -1, "size": 256 * kb, "chunk": 16 * kb, "failAt": -1, "reset": False,
+                  "class": "Complete", "forwarded": 256 * kb, "rate": 1024 * kb, "burst": 32 * kb})
+    cases.append({"mode": "Streaming", "limit": -1, "size": 192 * kb, "chunk": 64 * kb, "failAt": -1, "reset": False,
+                  "class": "Complete", "forwarded": 192 * kb, "rate": 768 * kb, "burst": 64 * kb})
     if not ctx.quick:
         cases.append({"mode": "Streaming", "limit": -1, "size": 300 * kb, "chunk": 64 * kb, "failAt": -1, "reset": False,
                       "class": "Complete", "forwarded": 300 * kb, "rate": 64 * kb, "burst": 64 * kb})
@@ -119,7 +124,7 @@ def run(ctx):
         "walk": {"graph_nodes": len(g.nodes), "graph_edges": len(g.edges), "edges_confirmed": rep["edges_covered"]},
         "copy_cases": crep["cases"], "rate_checks": crep["rate_checks"],
     })
-    ctx.assumptions += ["header values are one representative per class", "the rate bound is checked on write time stamps with one refill quantum of slack",
+    ctx.assumptions += ["header values are one representative per class", "the rate bound (burst + completed refill ticks x quantum) is checked on write time stamps with 40 ms of slack",
                         "resets are injected once, 150 ms into a throttled copy"]
     if not ctx.violations and not ctx.known and rep["edges_covered"] != len(g.edges):
         raise Inconclusive("parser walk incomplete")
